@@ -144,7 +144,11 @@ fn case(rng: &mut Rng, rec: &mut Rec) {
         if hop_i == depth {
             let mut s = flow.proceed();
             rec.call();
-            match write_head_big(&mut s) {
+            // half of the heads go out through small, varying buffers
+            let small = rng.chance(1, 2);
+            rec.cov(if small { "written/small-buffers" } else { "written/one-buffer" });
+            let written = if small { write_head_small(&mut s, rng) } else { write_head_big(&mut s) };
+            match written {
                 Ok(head) => {
                     rec.ev(|| format!("depth {} head: {:?}", hop_i, crate::json::esc_short(&head, 400)));
                     check(&head, &added, &eff, policy, rec);
@@ -188,7 +192,7 @@ impl Property for P {
         "C16"
     }
     fn rule(&self) -> String {
-        "flows at redirect depth 0..3 under both auth policies; at every depth 0..60 tagged headers are added in the prepare state with names drawn from cookie / Cookie / authorization / AUTHORIZATION / connection / host / content-length (where C17 allows them) and ordinary names, some with non-UTF-8 values, while the original request carries its own cookie, authorization and (body methods) content-length. Each request head is parsed by the strict parser: every added (name, value) must be on the wire, in the order added, and before any original header. class = special name x depth x policy.".into()
+        "flows at redirect depth 0..3 under both auth policies; at every depth 0..60 tagged headers are added in the prepare state with names drawn from cookie / Cookie / authorization / AUTHORIZATION / connection / host / content-length (where C17 allows them) and ordinary names, some with non-UTF-8 values, while the original request carries its own cookie, authorization and (body methods) content-length. The final request head is written through one buffer or through small varying buffers; each request head is parsed by the strict parser: every added (name, value) must be on the wire, in the order added, and before any original header. class = special name x depth x policy.".into()
     }
     fn assumptions(&self) -> Vec<String> {
         vec![
@@ -214,6 +218,7 @@ impl Property for P {
             v.push((format!("connection/depth{}/*", d), 5));
         }
         v.push(("content-length/depth0/*".into(), 5));
+        v.push(("written/small-buffers".into(), 100));
         v
     }
 }
